@@ -16,6 +16,7 @@ import ClarabelProofs.Lemmas.PresolveInfCapture
 import ClarabelProofs.Lemmas.PresolveHandReduce
 import ClarabelProofs.Lemmas.PresolveSolveTransparent
 import ClarabelProofs.Lemmas.PresolveTransparent
+import ClarabelProofs.Lemmas.PresolveTransparentFull
 import ClarabelProofs.Props.C16
 import ClarabelProofs.Lemmas.ScalarInst
 import Mathlib.Algebra.Order.Field.Basic
@@ -652,5 +653,102 @@ example : C16.Canonical toyA ∧
   ⟨C16.check_format_canonical _ (by rfl), by rfl, ⟨_, rfl⟩⟩
 
 end examples_round3
+
+/-! ## Round 4 — `presolve_transparent` with the length invariant discharged -/
+
+section transparent_full
+open Clarabel.Solver
+variable [Add α] [Sub α] [Mul α] [Div α] [Neg α] [OfNat α 0] [OfNat α 1] [OfNat α 2]
+  [OfNat α 100] [OfNat α 1000] [LT α] [DecidableLT α] [LE α] [DecidableLE α] [BEq α] [FloatLike α]
+
+/-- [S] **`presolve_transparent_full` — `presolve_transparent` without the length hypothesis.**
+Same statement as `presolve_transparent`; the hypotheses `|variables.s| = |variables.z| = A'.m`
+after the solve are now CONCLUSIONS: `DefaultSolver::new` allocates `variables` with the lengths
+`(n, m)` of the internal (reduced) problem, every `solve()` that returns keeps them (the size part
+of the state invariant of the whole-solver model — C04's `Shapes` / `full_solve_keeps_invariant`,
+obtained here from C05's shape frame so that no hypothesis besides the success of `solve()` is
+needed), and the reduced internal problem has exactly `A'.m = #kept rows` rows.  Hypotheses left:
+canonical `A`, presolve enabled, `new` succeeds, `keep` is the keep vector of
+`make_reduction_map`, at least one row is dropped — all about the user's input. -/
+theorem presolve_transparent_full {P : Csc α} {q : Array α} {A : Csc α} {b : Array α}
+    {cones : List (ConeT α)} {st : Settings α} {perm : Array Nat} {S : Solver α} {keep : List Bool}
+    (hA : C16.Canonical A) (hpre : st.presolveEnable = true)
+    (hnew : Solver.new P q A b cones st perm = .ok S)
+    (hk : keepFlags (threshold st.infbound) (newCollapsed cones) b.toList = .ok keep)
+    (hc : keep.count true < b.size) :
+    ∃ (A' : Csc α) (b' : Array α) (cones' : List (ConeT α)) (S' : Solver α),
+      handReduce keep A b cones = .ok (A', b', cones') ∧
+      A'.m = keep.count true ∧ A'.n = A.n ∧
+      Solver.new P q A' b' cones' { st with presolveEnable := false } perm = .ok S' ∧
+      S'.st = S.st.setPre none ∧ S'.solution = Unscale.Solution.new A'.n A'.m ∧
+      presolveMap S.st.data = some { keep := keep.toArray, infbound := st.infbound } ∧
+      S.st.data.m = A'.m ∧
+      ∀ r, S.solve st = .ok r →
+        (r.S.st.variables.s.size = A'.m ∧ r.S.st.variables.z.size = A'.m) ∧
+        ∃ r', S'.solve { st with presolveEnable := false } = .ok r' ∧
+          r'.traj = r.traj ∧ r'.S.st = r.S.st.setPre none
+          ∧ r'.S.solution.status = r.S.solution.status
+          ∧ r'.S.solution.iterations = r.S.solution.iterations
+          ∧ r'.S.solution.obj_val = r.S.solution.obj_val
+          ∧ r'.S.solution.obj_val_dual = r.S.solution.obj_val_dual
+          ∧ r'.S.solution.r_prim = r.S.solution.r_prim ∧ r'.S.solution.r_dual = r.S.solution.r_dual
+          ∧ r'.S.solution.x = r.S.solution.x
+          ∧ ∀ k, (hk : k < keep.length) →
+            (keep[k] = true →
+                r.S.solution.s[k]? = r'.S.solution.s[Unscale.rank keep k]?
+                ∧ r.S.solution.z[k]? = r'.S.solution.z[Unscale.rank keep k]?
+                ∧ (r'.S.solution.s[Unscale.rank keep k]?).isSome
+                ∧ (r'.S.solution.z[Unscale.rank keep k]?).isSome)
+            ∧ (keep[k] = false →
+                r.S.solution.s[k]? = some st.infbound ∧ r.S.solution.z[k]? = some 0) := by
+  obtain ⟨A', b', cones', S', h1, h2, h3, h4, h5, h6, h7, hm, h8⟩ :=
+    presolve_transparent_model_full hA hpre hnew hk hc
+  refine ⟨A', b', cones', S', h1, h2, h3, h4, h5, h6, h7, hm, ?_⟩
+  intro r hr
+  obtain ⟨hsz, r', hr', hrel⟩ := h8 r hr
+  obtain ⟨e1, e2, e3, e4, e5, e6, e7, e8, e9, _, _, e12⟩ := hrel.explicit
+  refine ⟨hsz, r', hr', e1, e2, e3, e4, e5, e6, e7, e8, e9, ?_⟩
+  intro k hk
+  have := e12 k (by simpa using hk)
+  simpa using this
+
+/-- [S] the length invariant on its own: after `DefaultSolver::new` and any `solve()` that
+returns, `variables.x/s/z` have the lengths `n, m, m` of the internal problem, and with presolve
+off `m` is the number of rows of the user's `A`. -/
+theorem variables_keep_internal_lengths {P : Csc α} {q : Array α} {A : Csc α} {b : Array α}
+    {cones : List (ConeT α)} {st0 st : Settings α} {perm : Array Nat} {S : Solver α}
+    {r : SolveResult α} (hnew : Solver.new P q A b cones st0 perm = .ok S)
+    (hr : S.solve st = .ok r) :
+    r.S.st.data = S.st.data ∧ r.S.st.variables.x.size = S.st.data.n
+      ∧ r.S.st.variables.s.size = S.st.data.m ∧ r.S.st.variables.z.size = S.st.data.m
+      ∧ (st0.presolveEnable = false → S.st.data.m = A.m) :=
+  let ⟨a, b, c, d⟩ := new_solve_variables_sized hnew hr
+  ⟨a, b, c, d, fun hoff => solverNew_off_m hoff hnew⟩
+
+end transparent_full
+
+section examples_round4
+open Clarabel.Solver Clarabel.Solver.PresolveExample
+
+attribute [local instance] intFloatLike in
+/-- non-vacuity of `presolve_transparent_full`: its hypotheses are those of `presolve_transparent`
+minus the two length hypotheses; they hold on the instance of `Lemmas/PresolveSolveTransparent.lean`
+(`new` evaluated by the kernel; the `solve()` is NOT evaluated in the build) -/
+example : ∃ (A' : Csc Int) (S' : Solver Int), A'.m = 1 ∧
+    (∃ S, Solver.new PresolveExample.P #[1] PresolveExample.A PresolveExample.b [.nonneg 2]
+      PresolveExample.st #[0, 1] = .ok S ∧ S'.st = S.st.setPre none ∧ S.st.data.m = A'.m) := by
+  have h : (Solver.new PresolveExample.P #[1] PresolveExample.A PresolveExample.b [.nonneg 2]
+      PresolveExample.st #[0, 1]).toOption.map (fun S => S.solution.x.size) = some 1 := by
+    decide +kernel
+  cases hS : Solver.new PresolveExample.P #[1] PresolveExample.A PresolveExample.b [.nonneg 2]
+      PresolveExample.st #[0, 1] with
+  | error e => rw [hS] at h; cases h
+  | ok S =>
+    obtain ⟨A', b', cones', S', -, h2, -, -, h5, -, -, hm, -⟩ :=
+      presolve_transparent_full (keep := [true, false])
+        (C16.check_format_canonical PresolveExample.A (by rfl)) rfl hS (by rfl) (by decide)
+    exact ⟨A', S', h2, S, rfl, h5, hm⟩
+
+end examples_round4
 
 end Clarabel.C09
